@@ -1459,7 +1459,7 @@ Proof.
         auto; try lia.
       * (* sub exc *) subst t0. apply setexc_done in H. rewrite Hkt in H. congruence.
       * (* status *) destruct (status_post _ _ _ _ H) as (x0 & c' & Hx0 & Hc' & Hst).
-        assert (x0 = x) by congruence. subst x0. rewrite Hkt in Hc'.
+        assert (x0 = x) by (pose proof (find_task_some_id _ _ _ Hx); congruence). subst x0. rewrite Hkt in Hc'.
         unfold unstarted in Hu'. rewrite Hc' in Hu'. rewrite Hu' in Hst. destruct tr; discriminate.
     + cbn [k_t fresh_task] in Hkt. subst t0. cbn. split; [|reflexivity].
       destruct (Z.eq_dec kind KSubmission) as [Hk|Hk]; [exact Hk|exfalso].
@@ -1475,7 +1475,7 @@ Proof.
       destruct (s3op_eqb op OpAbort) eqn:Eop.
       * apply s3op_eqb_eq in Eop. destruct (Hab Eop) as (c & Hc & Hrun).
         assert (Hd : is_done (c_status c) = true).
-        { apply (IA t c Hc). left. apply (IL t c Hc). congruence. }
+        { apply (IA t c Hc). left. destruct (IL t c Hc) as [_ _ _ _ L5 _]. apply L5. congruence. }
         unfold unstarted in Hu. rewrite Hc in Hu. rewrite Hu in Hd. discriminate.
       * assert (Hne : op <> OpAbort) by (intros ->; discriminate).
         destruct (Htk Hne) as (x & Hx & Hxt & _ & _ & Hsub).
